@@ -57,13 +57,13 @@ def compare(arr, sh, opname, focus):
     return out
 
 
-def compare_scalar(val, exp, opname):
+def compare_scalar(val, exp, opname, tol=1e-9):
     try:
         v = complex(val)
     except Exception:  # noqa: BLE001
         return [('C01', opname + ':scalar-type', 'returned %r instead of a scalar' % (val,))]
     e = complex(np.asarray(exp).reshape(-1)[0]) if np.asarray(exp).size else 0j
-    if abs(v - e) > 1e-9 * (1 + abs(e)):
+    if abs(v - e) > tol * (1 + abs(e)):
         return [('C01', opname + ':scalar', 'returned %r, numpy gives %r' % (val, e))]
     return []
 
@@ -162,7 +162,9 @@ def apply(heap, op, focus, tier='quick'):
             if not (isinstance(exp, tuple) and exp[0] == 'scalar'):
                 out.append(('C01', name + ':scalar-vs-array', 'returned a scalar where an Array is expected'))
             elif 'C01' in focus:
-                out += compare_scalar(res['val'], exp[1], name)
+                # single-precision operands (after astype) accumulate in single precision
+                single = any(np.dtype(sh.dense.dtype) in (np.dtype(np.float32), np.dtype(np.complex64)) for sh in shs)
+                out += compare_scalar(res['val'], exp[1], name, 1e-4 if single else 1e-9)
             new_entry = None
         else:
             arr = heap.entries[target].arr if kind == 'inplace' else res['arr']
